@@ -78,16 +78,31 @@ def fetchBad (f : Fetch) : Bool :=
   | .fail => true
   | .body data complete => !complete || htmlDoc data || binaryDoc data
 
+def digits (n : Nat) : Bytes := (toString n).toUTF8.toList.map (·.toNat)
+
+/-- The probe rule `||w<k>.l<i>.example^` of list `i`. -/
+def probeRule (i k : Nat) : Bytes :=
+  [124, 124, 119] ++ digits k ++ [46, 108] ++ digits i ++ [46, 101, 120, 97, 109, 112, 108, 101, 94]
+
+/-- Which of the four probe names of list `i` a list content blocks/allows
+(bit mask) — what `CheckHost` is asked after every refresh. -/
+def maskOf (i : Nat) (content : Option Bytes) : Nat :=
+  match content with
+  | none => 0
+  | some c =>
+    let ls := splitOn nl c
+    (List.range 4).foldl (fun acc k => if ls.contains (probeRule i k) then acc + 2 ^ k else acc) 0
+
 /-- Observation of one list before/after a refresh. -/
 structure ListObs where
   count : Nat
   checksum : Nat
   file : Option Bytes     -- content of data/filters/<id>.txt
-  inForce : List Nat      -- which probe names the engine blocks/allows through this list
+  inForce : Nat           -- bit mask: which probe names the engine blocks/allows through this list
   rewritten : Bool        -- the file was replaced (new inode) during this refresh
   deriving DecidableEq, Repr
 
-def refreshSpecWhy (before : ListObs) (f : Fetch) (attempted : Bool) (after : ListObs) : Option String :=
+def refreshSpecWhy (i : Nat) (before : ListObs) (f : Fetch) (attempted : Bool) (after : ListObs) : Option String :=
   if !attempted then
     (if after.count != before.count || after.checksum != before.checksum || after.file != before.file ||
         after.rewritten then some "untouched-list-changed" else none)
@@ -96,7 +111,11 @@ def refreshSpecWhy (before : ListObs) (f : Fetch) (attempted : Bool) (after : Li
      else if after.rewritten then some "failed-refresh-rewrote-file"
      else if after.count != before.count then some "failed-refresh-changed-count"
      else if after.checksum != before.checksum then some "failed-refresh-changed-checksum"
-     else if after.inForce != before.inForce then some "failed-refresh-changed-rules-in-force"
+     else if after.inForce != before.inForce then
+       -- narrower class: what came into force is the content already on disk, stored by an
+       -- earlier successful refresh that was never activated
+       (if after.inForce == maskOf i before.file then some "failed-refresh-activated-earlier-stored-content"
+        else some "failed-refresh-changed-rules-in-force")
      else none)
   else
     match f with
@@ -113,5 +132,16 @@ def refreshSpecWhy (before : ListObs) (f : Fetch) (attempted : Bool) (after : Li
       else if after.count != (specLines data).length then some "count-is-not-number-of-rule-lines"
       else if after.checksum != crcLines 0 (specLines data) then some "checksum-is-not-crc-of-rule-lines"
       else none
+
+/-- The engine's view of a list agrees with its file. -/
+def InSync (l : LState) : Prop := l.inForce = (if l.flt.enabled then l.flt.file else none)
+
+/-- A history of `tryRefreshFilters` calls. -/
+def runHist (h : List (Req × List (Bool × Fetch))) (ls : List LState) : List LState :=
+  h.foldl (fun s c => refreshStep c.1 s c.2) ls
+
+/-- What the harness observes of list `i` in model state `l`. -/
+def obsOf (i : Nat) (l : LState) (rew : Bool) : ListObs :=
+  ⟨l.flt.count, l.flt.checksum, l.flt.file, maskOf i l.inForce, rew⟩
 
 end AGH.C15
